@@ -379,6 +379,57 @@ def run_k06(chk, tier):
         raw.append({"entry": f, "pgsite_view": repr(v[0])})
     evaluate("k_entry_view", "chk_entry_view", cases, raw)
 
+    # ---- the view theorems' conclusion on the real code, wherever their hypothesis (entry_wf, evaluated in Coq) holds ----
+    wf_names = ["plain", "a<b>&\"'c", "caf\u00e9", "\udcae.txt", "sp ace", "\\xae", "&amp;", "=> not a link", "=>  x", "tab\tname",
+                "=> gemini://x y"]
+    wf_sels = ["/a.txt", "/dir with space/f.txt", "/q?x=1&y=2#frag", "/\udcae", "/caf\u00e9", "/%41", "/~u/_x-y.z", "/GEMINI-QUERY/x",
+               "URL:http://www.example.org/x?y=1&z=2", "/URL:https://e.example/%22", "URL:/local", "URL:http://x/a b", "noslash", "//dbl",
+               "fake", "URL:", "/wap/inside", "/a\nb"]
+    cand = list(entries[: n // 2])
+    for _ in range(n // 2):
+        cand.append({"selector": rng.choice(wf_sels), "type": rng.choice(["0", "1", "7", "h", "i", "9"]), "name": rng.choice(wf_names),
+                     "host": rng.choice([None, None, None, "other.example", "(NULL)", SRV, "h st"]),
+                     "port": rng.choice([None, None, None, 70, 7070, 0]), "mimetype": rng.choice(MIMES), "gplus": rng.random() < 0.5})
+    cand = [f for f in cand if entry_encodable(f)]
+    protos6 = ("gopher", "gopherplus", "http", "wap", "gemini", "spartan")
+    wcases = [{"proto": proto, "dir": js_entry({"selector": "/d", "type": "1", "name": "d"}), "entries": [js_entry(f)]}
+              for f in cand for proto in protos6]
+    cfg1 = {"pygopherd": {"abstract_entries": "never", "abstract_headers": "off"},
+            "protocols.gemini.GeminiProtocol": {"footer": None}, "protocols.gemini.SpartanProtocol": {"footer": None},
+            "protocols.http.HTTPProtocol": {"pagetopper": None}}
+    wres = _split(wcases, "c06_dirs", {"config": cfg1, "srvname": L(SRV), "srvport": 70})
+
+    def one_view(proto, out):
+        if out is None:
+            return None
+        body = out.encode("latin-1")
+        try:
+            if proto in ("gopher", "gopherplus"):
+                v = pgsite.view_gopher(V.parse_gopher_menu(body))
+            elif proto == "http":
+                v = pgsite.view_html(body)
+            elif proto == "wap":
+                v = pgsite.view_wml(body)
+            else:
+                v = pgsite.view_gemtext(body)
+        except Exception:  # noqa
+            return None
+        return v[0] if len(v) == 1 else None
+
+    cases, raw = [], []
+    for i, f in enumerate(cand):
+        vs = [one_view(proto, wres[i * 6 + j]["out"]) for j, proto in enumerate(protos6)]
+        cases.append("(((%s, %s), %s), %s)" % (coq_str(SRV), cq_z(70), cq_entry(f),
+                                               coq_list("(@None vitem)" if v is None else "(Some %s)" % cq_vitem(v) for v in vs)))
+        raw.append({"entry": f, "pgsite_views": dict(zip(protos6, map(repr, vs)))})
+    evaluate("k_wf_views", "chk_wf_views", cases, raw)
+    m_, e_, _ = coq_eval(chk.prop, "k_wf_count", IMPORTS06, "is_wf_case", cases, shard=250, pre=PRE)
+    details["k_wf_views"]["hypothesis_holds_on"] = len(m_)
+    if e_:
+        errs.append(e_)
+    for i in m_:
+        chk.count(("wf-entry", repr(cand[i])), nontrivial=True)
+
     # ---- MIME adjusters ----
     mimes = MIMES + ["text/html", "text/gemini", "text/vnd.wap.wml", "application/gopher+-menu", "application/octet-stream"]
     r = impl_run([{"op": "c06_mime", "config": {}, "inputs": [L(m_) for m_ in mimes]}])[0]
